@@ -68,6 +68,83 @@ func discardRest(lr io.Reader) error {
 	return nil
 }
 
+// maxBencodeDepth bounds the nesting of the bencoded values we accept from
+// peers.  The bencode decoder is recursive, so without a bound a single
+// frame of nested lists exhausts the stack and kills the process.
+const maxBencodeDepth = 64
+
+var errTooDeep = errors.New("bencoded value nested too deeply")
+
+// depthLimiter is a reader that fails as soon as the first bencoded value
+// flowing through it nests deeper than maxBencodeDepth.  Whatever follows
+// that value is passed through untouched.
+type depthLimiter struct {
+	r     io.Reader
+	depth int
+	state int   // 0: start of a value, 1: integer, 2: string length, 3: string body, 4: done
+	n     int64 // string length read so far / bytes of body left
+}
+
+func (d *depthLimiter) endValue() {
+	if d.depth == 0 {
+		d.state = 4
+	} else {
+		d.state = 0
+	}
+}
+
+func (d *depthLimiter) Read(p []byte) (int, error) {
+	n, err := d.r.Read(p)
+	for _, c := range p[:n] {
+		switch d.state {
+		case 0:
+			switch {
+			case c == 'l' || c == 'd':
+				d.depth++
+				if d.depth > maxBencodeDepth {
+					return 0, errTooDeep
+				}
+			case c == 'e':
+				d.depth--
+				if d.depth <= 0 {
+					d.state = 4
+				}
+			case c == 'i':
+				d.state = 1
+			case c >= '0' && c <= '9':
+				d.state = 2
+				d.n = int64(c - '0')
+			default:
+				d.state = 4 // malformed; the decoder will say so
+			}
+		case 1:
+			if c == 'e' {
+				d.endValue()
+			}
+		case 2:
+			if c == ':' {
+				if d.n == 0 {
+					d.endValue()
+				} else {
+					d.state = 3
+				}
+			} else if c >= '0' && c <= '9' {
+				if d.n < 1<<40 {
+					d.n = d.n*10 + int64(c-'0')
+				}
+			} else {
+				d.state = 4
+			}
+		case 3:
+			d.n--
+			if d.n == 0 {
+				d.endValue()
+			}
+		}
+	}
+	return n, err
+}
+
 // Read reads a single BitTorrent message from r.  If l is not nil, then
 // the message is logged.
 func Read(r *bufio.Reader, l *log.Logger) (Message, error) {
@@ -239,7 +316,7 @@ func Read(r *bufio.Reader, l *log.Logger) (Message, error) {
 		case 0:
 			var ext extensionInfo
 			lr := io.LimitReader(r, int64(length-2))
-			decoder := bencode.NewDecoder(lr)
+			decoder := bencode.NewDecoder(&depthLimiter{r: lr})
 			err = decoder.Decode(&ext)
 			if err != nil {
 				return nil, err
@@ -272,7 +349,7 @@ func Read(r *bufio.Reader, l *log.Logger) (Message, error) {
 		case ExtPex:
 			var info pexInfo
 			lr := io.LimitReader(r, int64(length-2))
-			decoder := bencode.NewDecoder(lr)
+			decoder := bencode.NewDecoder(&depthLimiter{r: lr})
 			err := decoder.Decode(&info)
 			if err != nil {
 				return nil, err
@@ -312,7 +389,8 @@ func Read(r *bufio.Reader, l *log.Logger) (Message, error) {
 			if err != nil {
 				return nil, err
 			}
-			decoder := bencode.NewDecoder(bytes.NewReader(data))
+			decoder := bencode.NewDecoder(
+				&depthLimiter{r: bytes.NewReader(data)})
 			err = decoder.Decode(&m)
 			if err != nil {
 				return nil, err
